@@ -35,7 +35,7 @@ struct cc_slist_s {
 static void* unlinkn             (CC_SList *list, SNode *node, SNode *prev);
 static bool  unlinkn_all         (CC_SList *list, void (*cb) (void*));
 static void  splice_between      (CC_SList *list1, CC_SList *list2, SNode *base, SNode *end);
-static bool  link_all_externally (CC_SList *list, SNode **h, SNode **t);
+static bool  link_all_externally (CC_SList *dest, CC_SList *list, SNode **h, SNode **t);
 static enum cc_stat get_node_at  (CC_SList *list, size_t index, SNode **node, SNode **prev);
 static enum cc_stat get_node     (CC_SList *list, void *element, SNode **node, SNode **prev);
 
@@ -262,7 +262,7 @@ enum cc_stat cc_slist_add_all(CC_SList *list1, CC_SList *list2)
     SNode *head = NULL;
     SNode *tail = NULL;
 
-    if (!link_all_externally(list2, &head, &tail))
+    if (!link_all_externally(list1, list2, &head, &tail))
         return CC_ERR_ALLOC;
 
     if (list1->size == 0) {
@@ -307,7 +307,7 @@ enum cc_stat cc_slist_add_all_at(CC_SList *list1, CC_SList *list2, size_t index)
     SNode *head = NULL;
     SNode *tail = NULL;
 
-    if (!link_all_externally(list2, &head, &tail))
+    if (!link_all_externally(list1, list2, &head, &tail))
         return CC_ERR_ALLOC;
 
     if (!prev) {
@@ -334,18 +334,18 @@ enum cc_stat cc_slist_add_all_at(CC_SList *list1, CC_SList *list2, size_t index)
  *
  * @return true if the operation was successful
  */
-static bool link_all_externally(CC_SList *list, SNode **h, SNode **t)
+static bool link_all_externally(CC_SList *dest, CC_SList *list, SNode **h, SNode **t)
 {
     SNode *ins = list->head;
 
     size_t i;
     for (i = 0; i < list->size; i++) {
-        SNode *new = list->mem_calloc(1, sizeof(SNode));
+        SNode *new = dest->mem_calloc(1, sizeof(SNode));
 
         if (!new) {
             while (*h) {
                 SNode *tmp = (*h)->next;
-                list->mem_free(*h);
+                dest->mem_free(*h);
                 *h = tmp;
             }
             return false;
